@@ -350,9 +350,22 @@ func IndentByParentheses(s string) string {
 
 	var indent int
 	var prev = normal
+	var inAtom bool // a quote in the middle of an atom does not start a string
 	for i := 0; i < len(A); i++ {
 		c := A[i]
+		startStr := c == '"' && !inAtom
+		inAtom = !(left[c] || right[c] || unicode.IsSpace(c) || c == ';' || c == ',' || startStr)
 		switch {
+		case startStr:
+			// copy string literals as they are
+			appendRune(c, prev, indent)
+			for i++; i < len(A); i++ {
+				sb.WriteRune(A[i])
+				if A[i] == '"' {
+					break
+				}
+			}
+			prev = normal
 		case left[c]:
 			appendLeft(c, prev, indent)
 			indent++
